@@ -195,6 +195,7 @@ func RunLint(w *World, c *Chooser, o RunOpts) *LintResult {
 	if rep < 1 {
 		rep = 1
 	}
+	simrt.ResetChannels()
 	res.K = kern.Run(cfg, func() {
 		var shared *sharedLinter
 		if o.ReuseLinter && w.API != APIMain {
